@@ -539,6 +539,10 @@ type AnimEncoder struct {
 	countSinceKeyframe int                // Frames since the last keyframe.
 	prevFrameRect      image.Rectangle    // Bounding rect of previous frame (for dispose-bg). Always valid after a frame is committed.
 	prevMuxIndex       int                // Index of previous frame in muxer (for retroactive dispose update).
+
+	// Which metadata chunks were set (a plain still written by the
+	// single-frame optimization has no place for them).
+	hasICC, hasEXIF, hasXMP bool
 }
 
 // sanitizeKeyframeOptions adjusts kmin/kmax to valid ranges, matching the
@@ -1169,16 +1173,19 @@ func (e *AnimEncoder) AddRawFrame(bitstreamData []byte, duration time.Duration, 
 
 // SetICCProfile sets the ICC color profile for the output file.
 func (e *AnimEncoder) SetICCProfile(data []byte) {
+	e.hasICC = data != nil
 	e.muxer.SetICCProfile(data)
 }
 
 // SetEXIF sets EXIF metadata for the output file.
 func (e *AnimEncoder) SetEXIF(data []byte) {
+	e.hasEXIF = data != nil
 	e.muxer.SetEXIF(data)
 }
 
 // SetXMP sets XMP metadata for the output file.
 func (e *AnimEncoder) SetXMP(data []byte) {
+	e.hasXMP = data != nil
 	e.muxer.SetXMP(data)
 }
 
@@ -1204,7 +1211,9 @@ func (e *AnimEncoder) Close() error {
 	// Single-frame optimization: if there is exactly 1 frame and we have
 	// the canvas image and the simple encoder, try encoding as a simple
 	// WebP and pick the smaller output.
-	if e.frameCount == 1 && e.prevCanvas != nil && SimpleEncodeFunc != nil {
+	// (Not when metadata was set: the simple file would silently drop it.)
+	hasMetadata := e.hasICC || e.hasEXIF || e.hasXMP
+	if e.frameCount == 1 && e.prevCanvas != nil && SimpleEncodeFunc != nil && !hasMetadata {
 		simpleData, err := SimpleEncodeFunc(e.prevCanvas, e.opts.Lossless, float32(e.opts.Quality))
 		if err == nil && len(simpleData) > 0 && len(simpleData) < len(animData) {
 			_, writeErr := e.w.Write(simpleData)
